@@ -60,6 +60,8 @@ pub struct Cfg {
     pub refine: bool,
     /// depth of the behaviour signature (1 unless set; 2 costs |events|^2 executions per key)
     pub refine_depth: u8,
+    /// events used for the behaviour signature (default: the whole alphabet)
+    pub refine_probe: Option<Vec<Ev>>,
     /// collect a hash of every transition projected on feature-independent observations (C16)
     pub digest: Option<std::sync::Arc<std::sync::Mutex<std::collections::HashSet<u64>>>>,
 }
@@ -694,7 +696,8 @@ impl<C: Autocomplete + Help> Model for SessModel<C> {
             k.tcol = 0;
         }
         if self.cfg.refine {
-            k.sig = behaviour_sig::<C>(s, &self.cfg.events, self.cfg.mon.term || self.cfg.mon.framing, self.cfg.refine_depth.max(1));
+            let probe = self.cfg.refine_probe.as_ref().unwrap_or(&self.cfg.events);
+            k.sig = behaviour_sig::<C>(s, probe, self.cfg.mon.term || self.cfg.mon.framing, self.cfg.refine_depth.max(1));
         }
         k
     }
